@@ -15,7 +15,7 @@ RULE_TEXT = ("Generated graphs with overlapping accepted types, targeted ctx.sen
 COMPONENTS = {"real": ["workflows.* engine"], "stub": ["llama_index_instrumentation"], "sim": ["loop, clock, executor"]}
 ASSUMPTIONS = ["waiter precedence as in the statement: a matching registered waiter takes the event as wait result and the "
                "waiting step does not also get it as a new input",
-               "an event that overwrites an already-resolved waiter slot is not judged here (C10's subject)"]
+               "a wait that already has its outcome (answered or timed out, its step not yet re-run) is not waiting any more: a further matching event is routed like any other event"]
 EXPECTED_PROBES = ["multi-recipient", "targeted", "external-send", "unhandled", "waiter-resolved", "queued"]
 LEVEL_TEXT = ("Seeded exploration; oracle = static routing table from the generated spec plus a small waiter model fed by "
               "the processed-tick order, compared per tick with the engine's published dispatches and per uid with body "
@@ -108,7 +108,9 @@ def check(world, spec, outcome) -> None:
                     elif r[0] == "del_waiter" and completed:
                         waiters[f["step"]][:] = [w for w in waiters[f["step"]] if w["id"] != r[1]]
             elif tk == "waiter_timeout":
-                pass
+                for w in waiters.get(f["step"], []):
+                    if w["id"] == f.get("waiter") and not w["resolved"]:
+                        w["timed_out"] = True
             elif tk == "add_event":
                 u = _h(f["uid"])
                 typ = f["ev"]
@@ -122,6 +124,9 @@ def check(world, spec, outcome) -> None:
                 W = set()
                 for s in sorted(waiters):
                     for w in waiters[s]:
+                        # a wait that already has its outcome (answered or timed out, step not yet re-run) is no longer waiting
+                        if w["resolved"] or w.get("timed_out"):
+                            continue
                         if w["type"] == typ and all(key == v for k, v in w["req"].items() if k == "key") and \
                                 (not w["req"] or set(w["req"]) == {"key"}):
                             W.add(s)
